@@ -494,6 +494,19 @@ func checkClonePayloadSwitch(c *Ctx, r *R) {
 				if sw == nil || len(s.cases) > len(sw.cases) {
 					sw = s
 				}
+			} else if id, ok := unparen(s.tagExpr).(*ast.Ident); ok && s.fn.Recv == nil {
+				// the switch moved into a helper that receives the payload as an interface parameter
+				if v, ok := c.Otto().TypesInfo.Uses[id].(*types.Var); ok {
+					if _, isIface := v.Type().Underlying().(*types.Interface); isIface {
+						for _, fl := range s.fn.Type.Params.List {
+							for _, nm := range fl.Names {
+								if c.Otto().TypesInfo.Defs[nm] == v && (sw == nil || len(s.cases) > len(sw.cases)) {
+									sw = s
+								}
+							}
+						}
+					}
+				}
 			}
 		}
 	}
